@@ -54,6 +54,8 @@ def build_corpus(rep, seed, n_grammars, max_units, bits_share=0.15, bytes_share=
         else:
             flavour = "bytes" if r < bits_share + bytes_share else "text"
             g = gen.rand_grammar(rnd, flavour=flavour, regex_ok=regex_ok, computed=False, classes=gen.SMALL_CLASSES)
+        if gen.count_derivations(g, 8 if g["flavour"] == "bits" else max_units) > 2500:
+            continue        # keeps the exhaustive enumeration of the corpus small (a corpus choice, not an oracle)
         grammars[gid] = g
     for g in (extra or []):
         gid += 1
